@@ -19,3 +19,11 @@ package main
 //@   modifies gpos, cstart, gone, gtwo, gname, gkw
 //@   hypothesis [struct-params] at call(New)#1 : res1 == nil ==> (forall i int :: 0 <= i && i < len(res0.Methods) ==> res0.Methods[i].In.Kind == idl.TypeStruct && res0.Methods[i].Out.Kind == idl.TypeStruct)
 //@   ensures [err C07] result2 != nil ==> result0 == "" && result1 == nil
+
+//@ func errorType {C07 | safety: C07}
+//@   requires [nn] e != nil
+//@   ensures [nonnil C07] result != nil && (e.Type != nil ==> result == e.Type) && (e.Type == nil ==> fresh(result) && result.Kind == idl.TypeStruct && len(result.Fields) == 0)
+
+//@ func structFields {C07 | safety: C07}
+//@   requires [nn] t != nil
+//@   ensures [struct C07] (t.Kind == idl.TypeStruct ==> result == t.Fields) && (t.Kind != idl.TypeStruct ==> len(result) == 0)
